@@ -36,7 +36,10 @@ RULE = ("Targets x ports x request types x server method choice: hostnames of 1.
         "IPv6 target), CONNECT / RESOLVE / RESOLVE_PTR, server selecting method 0 / 2 / 0xFF / other, method reply "
         "whole or split; CONNECT with tls=False / tls=True / tls=<context factory object> (names in absolute spelling with "
         "a trailing dot included); targets handed to the API as str or as ASCII bytes (A-label xn-- names included). "
-        "Bytes written to the SOCKS transport are decoded by an independent RFC 1928 parser. "
+        "Driver 'concurrent': 2-4 attempts in one process (same host on different ports, different hosts, CONNECT and "
+        "RESOLVE mixed), each on its own fake SOCKS port, started and answered in any interleaving (Hypothesis-drawn "
+        "orders; every answer order for 2-3 overlapping attempts enumerated), each judged by the same per-request "
+        "oracle. Bytes written to the SOCKS transport are decoded by an independent RFC 1928 parser. "
         "Non-trivial = the server selected 'no authentication' and the target is an IPv6 literal, or a name of "
         ">= 200 bytes, or the port's high and low byte differ; distinct = distinct canonical JSON of the case.")
 ASSUMPTIONS = [
@@ -59,6 +62,9 @@ ASSUMPTIONS = [
     "'_', leading '-', > 253 bytes) is counted as excluded for tls=True, not judged",
     "TorSocksEndpoint / resolve / resolve_ptr accept the host as bytes: those are the ASCII octets of the name "
     "or literal and must go out exactly like the str form (an xn-- A-label is an ordinary ASCII name on the wire)",
+    "several attempts may be in flight in one process (that is how a web agent or Circuit.stream_via uses the "
+    "endpoint); they are independent: each request carries its own target and port whatever the other attempts "
+    "are and in whatever order the SOCKS servers answer; in the concurrent driver tls is off",
     "when the server selects a method other than 0 no request may be written at all (how the attempt then "
     "fails is C05's subject)",
 ]
@@ -132,8 +138,18 @@ def _tls_available():
 
 
 def drive_request(case):
-    socks = _socks()
     res = Result()
+    for _ in _request_steps(case, res):
+        pass
+    return res
+
+
+def _request_steps(case, res):
+    """One connection attempt and its judgement, as a generator: it yields wherever the server side acts
+    (after the attempt was started and its greeting judged; between the two halves of a split method reply;
+    after the request was judged, before the reply/hang-up), so that several attempts can be interleaved in one
+    process.  Run to exhaustion it is the single-request driver."""
+    socks = _socks()
     req = case["req"]
     tls = case.get("tls", False) if req == "CONNECT" else False
     if tls not in (False, True, "context"):
@@ -219,12 +235,14 @@ def drive_request(case):
         return finish()
 
     # ---- 2. nothing more until the method reply is complete
+    yield "started"
     if case.get("msplit"):
         pipe.deliver(1)
         if pipe.client_bytes() != g:
             res.bad("request-before-method-selected", "after 1 byte of the method reply the client had written %s" % (
                 pipe.client_bytes()[len(g):].hex(),))
             return finish()
+        yield "half-method-reply"
         pipe.deliver(1)
     else:
         pipe.deliver(2)
@@ -236,12 +254,14 @@ def drive_request(case):
         if after_method:
             res.bad("request-after-method-reply-with-wrong-version",
                     "server answered %02x %02x, client wrote %s" % (mver, method, after_method.hex()))
+        yield 'judged'
         return _tail(res, pipe, w, g, after_method, req, target, expect_error=None, deliver=not tls)
     if method != ref.NO_AUTH:
         if after_method:
             res.bad("request-after-method-%02x-selected" % method if method in (2, 255) else
                     "request-after-other-method-selected",
                     "server selected method 0x%02x, client wrote %s" % (method, after_method.hex()))
+        yield 'judged'
         return _tail(res, pipe, w, g, after_method, req, target, expect_error=None, deliver=not tls)
 
     if not encodable:
@@ -249,10 +269,12 @@ def drive_request(case):
             res.bad("unencodable-target-sent" + ("-resolve-utf8" if _is_utf8_resolve(req, target, after_method) else ""),
                     "%s of %r (%s) wrote request bytes %s" % (req, target, tval, after_method[:40].hex()))
             return finish()
+        yield 'judged'
         return _tail(res, pipe, w, g, after_method, req, target, expect_error=True, deliver=not tls)
 
     if req == "RESOLVE_PTR" and tclass == "name" and not after_method:
         res.label("ptr-name-refused")
+        yield 'judged'
         return _tail(res, pipe, w, g, after_method, req, target, expect_error=True, deliver=not tls)
 
     try:
@@ -293,6 +315,7 @@ def drive_request(case):
     if req == "CONNECT" and r["port"] != port:
         res.bad("wrong-port", "CONNECT port %d (0x%04x): request carries %d (0x%04x)" % (
             port, port, r["port"], r["port"]))
+    yield 'judged'
     return _tail(res, pipe, w, g, after_method, req, target, expect_error=None, deliver=not tls)
 
 
@@ -333,6 +356,71 @@ def classify(res, case):
 
 def drive(case):
     return classify(drive_request(case), case)
+
+
+def drive_concurrent(case):
+    """{"conns": [<request case>, ...], "order": [i, ...]}: 2-4 attempts in one process, each on its own fake
+    SOCKS port.  Each entry of "order" lets connection i (mod n) take its next step (start + greeting / first
+    half of the method reply / rest of the method reply + request / reply + hang-up); what is left afterwards
+    runs in index order.  Every connection is judged by the single-request oracle."""
+    conns = case["conns"]
+    if not 2 <= len(conns) <= 4:
+        raise HarnessError("concurrent cases have 2..4 connections")
+    results = [Result() for _ in conns]
+    gens = [_request_steps(c, r) for c, r in zip(conns, results)]
+    live = [True] * len(conns)
+    started_at, judged_at, tick = {}, {}, 0
+
+    def step(i):
+        nonlocal tick
+        if not live[i]:
+            return
+        tick += 1
+        try:
+            what = next(gens[i])
+        except StopIteration:
+            live[i] = False
+            judged_at.setdefault(i, tick)
+            return
+        if what == "started":
+            started_at[i] = tick
+        elif what == "judged":
+            judged_at[i] = tick
+
+    for k in case["order"]:
+        step(k % len(conns))
+    for i in range(len(conns)):
+        while live[i]:
+            step(i)
+
+    res = Result()
+    for i, (c, r) in enumerate(zip(conns, results)):
+        for tag, detail in r.problems:
+            res.bad(tag, "connection %d of %d (%s %r port %r; others: %s): %s" % (
+                i, len(conns), c["req"], c["target"], c.get("port"),
+                ", ".join("%s %r:%r" % (o["req"], o["target"], o.get("port")) for j, o in enumerate(conns) if j != i),
+                detail))
+        res.excluded.extend(r.excluded)
+    res.label("concurrent:%d" % len(conns))
+    # overlap: some connection was started before another one's request had been judged, same host, other port
+    shared = False
+    for i in started_at:
+        for j in started_at:
+            if i < j and conns[i]["target"] == conns[j]["target"] and \
+                    _wire_port(conns[i]) != _wire_port(conns[j]) and \
+                    started_at[j] < judged_at.get(i, 1 << 30) and started_at[i] < judged_at.get(j, 1 << 30) and \
+                    conns[i]["method"] == 0 and conns[j]["method"] == 0:
+                shared = True
+    if shared:
+        res.label("overlapping-requests-same-host-different-ports")
+    if any(c["req"] != "CONNECT" for c in conns) and any(c["req"] == "CONNECT" for c in conns):
+        res.label("concurrent:connect-and-resolve-mixed")
+    res.nontrivial = shared
+    return res
+
+
+def _wire_port(c):
+    return c["port"] if c["req"] == "CONNECT" else 0
 
 
 # --------------------------------------------------------------------------- strategies
@@ -461,6 +549,50 @@ def targets():
                      overlong_names(), nonascii_names())
 
 
+CONCURRENT_HOSTS = ["example.com", "a.example.", "1.2.3.4", "timaq4ygg2iegci7.onion", "xn--bcher-kva.example",
+                    "10.0.0.1"]
+
+
+def concurrent_cases():
+    host = st.one_of(st.sampled_from(CONCURRENT_HOSTS), st.sampled_from(CONCURRENT_HOSTS[:2]), names(),
+                     ipv4_literals())
+    conn = st.builds(lambda r, t, p, m, s, b: {"req": r, "target": t, "port": p, "method": m, "msplit": s,
+                                               "as_bytes": b, "tls": False},
+                     st.sampled_from(["CONNECT", "CONNECT", "CONNECT", "RESOLVE", "RESOLVE_PTR"]),
+                     host, ports(), st.sampled_from([0, 0, 0, 0, 0, 2, 255]), st.booleans(),
+                     st.sampled_from([False, False, True]))
+
+    def build(conns, same_host, start_all, order):
+        if same_host:       # make the first two (or all) share a target
+            for c in conns[1:1 + same_host]:
+                c["target"] = conns[0]["target"]
+        n = len(conns)
+        return {"conns": conns, "order": (list(range(n)) if start_all else []) + [k % n for k in order]}
+
+    return st.builds(build, st.lists(conn, min_size=2, max_size=4), st.sampled_from([0, 1, 1, 3]),
+                     st.sampled_from([True, True, False]), st.lists(st.integers(0, 11), max_size=12))
+
+
+def concurrent_enumeration():
+    """2 and 3 overlapping attempts to the same / different hosts on different ports, every order in which the
+    servers answer the greetings"""
+    import itertools
+    for hosts in (["example.com"] * 3, ["1.2.3.4"] * 3, ["example.com", "a.example.", "example.com"],
+                  ["xn--bcher-kva.example"] * 2, ["example.com", "1.2.3.4"]):
+        for reqs in (["CONNECT"] * len(hosts), ["CONNECT", "RESOLVE", "CONNECT"][:len(hosts)],
+                     ["RESOLVE", "CONNECT", "CONNECT"][:len(hosts)]):
+            n = len(hosts)
+            for pports in ([80, 443, 8080], [65535, 0, 0x1234]):
+                conns = [{"req": reqs[i], "target": hosts[i], "port": pports[i], "method": 0,
+                          "msplit": bool(i & 1), "as_bytes": False, "tls": False} for i in range(n)]
+                if not all(target_class(c["target"])[0] != "name" or c["req"] != "RESOLVE_PTR" for c in conns):
+                    continue
+                for perm in itertools.permutations(range(n)):
+                    yield {"conns": [dict(c) for c in conns], "order": list(range(n)) + list(perm) * 3}
+                # strictly sequential use of the same host
+                yield {"conns": [dict(c) for c in conns], "order": []}
+
+
 def mvers():
     return st.one_of(st.just(5), st.just(5), st.just(5), st.just(5), st.just(5), st.just(5), st.just(5), st.just(5),
                      st.just(5), st.just(5), st.just(5), st.just(5), st.sampled_from([0, 4, 6, 255]),
@@ -555,7 +687,7 @@ def tls_cases():
             yield _case("CONNECT", t, 443, 2, msplit=True, tls=tls)
 
 
-DRIVERS = {"request": drive}
+DRIVERS = {"request": drive, "concurrent": drive_concurrent}
 
 MANIFEST = {
     "text": "Generated-input search (Hypothesis) over targets (names up to and beyond 255 bytes, non-ASCII names, IPv4 "
@@ -577,6 +709,8 @@ def run(ctx):
     ctx.enumerate("request", boundary_cases(), name="boundary-targets-x-methods")
     ctx.enumerate("request", tls_cases(), name="targets-x-tls-modes")
     ctx.enumerate("request", bytes_host_cases(), name="hosts-as-bytes(a-labels,names,literals)")
+    ctx.search("concurrent", concurrent_cases(), quick=500, thorough=3000, name="concurrent")
+    ctx.enumerate("concurrent", concurrent_enumeration(), name="overlapping-attempts-x-answer-orders")
     if ctx.quick():
         ctx.enumerate("request", port_sample_cases(), name="port-sample", exhaustive=False)
         ctx.enumerate("request", every_name_length_cases(step=7), name="name-lengths-sample", exhaustive=False)
@@ -627,6 +761,11 @@ MUTANTS = [
     ("tls-context-object-truncates-target-to-254", _F,
      "                context = self._tls\n",
      "                context = self._tls\n                self._host = self._host[:254]\n"),
+    # attempts in one process do not share request state
+    ("address-object-shared-per-host", _F,
+     "        self._addr = _create_ip_address(str(host), port)",
+     "        self._addr = _create_ip_address.__dict__.setdefault('seen', {}).setdefault(\n"
+     "            str(host), _create_ip_address(str(host), port))\n        self._addr.port = port"),
     # hosts given as bytes are ASCII, not IDNA
     ("endpoint-bytes-host-decoded-as-idna", _F,
      "            host = host.decode('ascii')", "            host = host.decode('idna')"),
